@@ -422,6 +422,58 @@ def m_start_send(e, st, fr, t, args):
     return outs
 
 
+def m_try_send(e, st, fr, t, args):
+    """Sender::try_send: like start_send, the error is a TrySendError (kind + the message handed back)"""
+    sref = args[0]
+    s = deref_arg(e, st, sref)
+    if not (is_h(s, 'mpsc::Sender') or is_h(s, 'mpsc::UnboundedSender')):
+        return NotImplemented
+    outs = []
+    for s2, r in chan_try_send(e, st, s, args[1]):
+        s2.event('chan_push', s.extra['oid'], 'force', r or 'ok', _payload_desc(args[1]))
+        if r is None:
+            val = ok(UNIT)
+        else:
+            val = err(VAgg(name='TrySendError', fields={('f', 0): _send_error(r), ('f', 1): args[1]}))
+        f2 = s2.frames[-1]
+        e.write_place(s2, f2, t.dest, val)
+        f2.bb = t.target
+        outs.append(s2)
+    return outs
+
+
+def m_into_send_error(e, st, fr, t, args):
+    x = args[0]
+    if not (isinstance(x, VAgg) and x.name == 'TrySendError'):
+        return NotImplemented
+    e.dropper.drop(st, x.fields[('f', 1)], 'message handed back by try_send is dropped')
+    return x.fields[('f', 0)]
+
+
+# ---- std::sync::Mutex (never contended here: tasks do not yield while they hold a std guard)
+def m_std_mutex_new(e, st, fr, t, args):
+    if not t.func.startswith('std::sync::'):
+        return NotImplemented          # (async_lock::Mutex has its own model)
+    return VAgg(name='StdMutex', fields={('f', 0): args[0]})
+
+
+def m_std_mutex_lock(e, st, fr, t, args):
+    if not t.func.startswith('std::sync::'):
+        return NotImplemented
+    ref = peel(e, st, args[0])
+    m = _load(e, st, ref)
+    if not (isinstance(m, VAgg) and m.name == 'StdMutex'):
+        return NotImplemented
+    return ok(VAgg(name='StdMutexGuard', fields={('f', 0): VRef(ref.root, ref.path + (('f', 0),), True)}))
+
+
+def m_std_guard_deref(e, st, fr, t, args):
+    g = deref_arg(e, st, args[0])
+    if not (isinstance(g, VAgg) and g.name == 'StdMutexGuard'):
+        return NotImplemented
+    return g.fields[('f', 0)]
+
+
 def m_unbounded_len(e, st, fr, t, args):
     s = deref_arg(e, st, args[0])
     return VScalar(len(mget(st, s.extra['oid'])['queue']))
@@ -1329,6 +1381,11 @@ def install(eng: Engine, resolver):
     add(r'^<(Unbounded)?Sender<.*> as Clone>::clone$', m_sender_clone)
     add(r'^<(futures::futures_channel::mpsc::)?(Unbounded)?Sender<.*> as Clone>::clone$', m_sender_clone)
     add(r'^(futures::futures_channel::mpsc::)?(Unbounded)?Sender::<.*>::start_send$', m_start_send)
+    add(r'^(futures::futures_channel::mpsc::)?(Unbounded)?Sender::<.*>::try_send$', m_try_send)
+    add(r'TrySendError::<.*>::into_send_error$', m_into_send_error)
+    add(r'^std::sync::Mutex::<.*>::new$', m_std_mutex_new)
+    add(r'^std::sync::Mutex::<.*>::lock$', m_std_mutex_lock)
+    add(r'^<std::sync::MutexGuard<.*> as Deref(Mut)?>::deref(_mut)?$', m_std_guard_deref)
     add(r'^(futures::futures_channel::mpsc::)?UnboundedSender::<.*>::len$', m_unbounded_len)
     add(r'^<(futures::futures_channel::mpsc::)?(Unbounded)?Sender<.*> as SinkExt<.*>>::send$', m_sink_send)
     add(r'^<&mut (futures::futures_channel::mpsc::)?(Unbounded)?Receiver<.*> as Stream>::poll_next$', m_rx_poll_next)
